@@ -12,7 +12,9 @@ import (
 
 // TestVerifC20Sdklog: correspondence lines for the configuration resolution of sdk/log (property C20).
 //
-//	blrp <gen> <oq> <oi ns> <ot ns> <ob> <obuf> <eq> <ei> <et> <eb> => <q> <i ns> <t ns> <b> <buf> | panic
+//	blrp <gen> <oq> <oi ns> <ot ns> <ob> <obuf> <eq> <ei> <et> <eb> <live L|-> => <q> <i ns> <t ns> <b> <buf> <ok|panic|hang|-> | panic
+//	     live = L: NewBatchProcessor is really built (ticker, queue ring, goroutine) and shut down; a panic
+//	     (e.g. time.NewTicker: non-positive interval) or a hang (20 s) there is the last observed token
 //	llim <gen> <ocnt> <olen> <ecnt> <elen> => <cnt> <len> | panic
 //
 // options: `-` = not passed, else a decimal int; environment: `-` = unset, else x<hex>.
@@ -68,6 +70,7 @@ func c20Blrp(out *vOut, gen string, a []string) {
 	if n, ok := c20OptInt(a[4]); ok {
 		opts = append(opts, WithExportBufferSize(n))
 	}
+	live := a[9]
 	obs := func() (res string) {
 		defer func() {
 			if r := recover(); r != nil {
@@ -75,29 +78,37 @@ func c20Blrp(out *vOut, gen string, a []string) {
 			}
 		}()
 		c := newBatchConfig(opts)
-		return fmt.Sprintf("%d %d %d %d %d", c.maxQSize.Value, int64(c.expInterval.Value), int64(c.expTimeout.Value),
-			c.expMaxBatchSize.Value, c.expBufferSize.Value)
+		// the real processor is only built when nothing large would be allocated
+		if live == "L" && (c.maxQSize.Value > 4096 || c.expMaxBatchSize.Value > 4096 || c.expBufferSize.Value > 4096) {
+			live = "-"
+		}
+		lv := "-"
+		if live == "L" {
+			lv = c20BlrpLive(opts)
+		}
+		return fmt.Sprintf("%d %d %d %d %d %s", c.maxQSize.Value, int64(c.expInterval.Value), int64(c.expTimeout.Value),
+			c.expMaxBatchSize.Value, c.expBufferSize.Value, lv)
 	}()
+	a = append(append([]string{}, a[:9]...), live)
 	out.Line("blrp %s %s => %s", gen, strings.Join(a, " "), obs)
 }
 
 // c20BlrpLive builds the real processor (goroutine, queue, ring) for a case: a panic or a hang there is an observation.
-func c20BlrpLive(opts []BatchProcessorOption) (res string) {
-	defer func() {
-		if r := recover(); r != nil {
-			res = "panic"
-		}
-	}()
-	done := make(chan struct{})
+func c20BlrpLive(opts []BatchProcessorOption) string {
+	res := make(chan string, 1)
 	go func() {
-		defer close(done)
-		defer func() { recover() }()
+		defer func() {
+			if r := recover(); r != nil {
+				res <- "panic"
+			}
+		}()
 		p := NewBatchProcessor(nil, opts...)
 		_ = p.Shutdown(context.Background())
+		res <- "ok"
 	}()
 	select {
-	case <-done:
-		return "ok"
+	case s := <-res:
+		return s
 	case <-time.After(20 * time.Second):
 		return "hang"
 	}
@@ -130,6 +141,13 @@ func c20Llim(out *vOut, gen string, a []string) {
 
 var c20IntEnv = []string{"-", "5", "600", "4096", "0", "-3", "abc", "99999999999999999999", "", " 5", "1.5", "+7", "007", "-1", "513", "2048", "5 ", "0x10", "1_000", "9223372036854775808", "-0"}
 
+// duration variables additionally get parsable values around the int64-nanosecond overflow of
+// time.Duration(n) * time.Millisecond: MaxInt64 (wraps to -1ms), 9223372036854 (largest exact), 9223372036855 (first
+// overflow, negative), 10000000000000 (negative), 18446744073709 (wraps to a small negative), 18446744073710 (wraps back
+// to a small positive), -9223372036855 (wraps to positive).
+var c20DurEnv = append(append([]string{}, c20IntEnv...), "9223372036854775807", "9223372036855", "10000000000000",
+	"9223372036854", "18446744073709", "18446744073710", "-9223372036855")
+
 func c20EnvTok(s string) string {
 	if s == "-" {
 		return "-"
@@ -145,7 +163,7 @@ func TestVerifC20Sdklog(t *testing.T) {
 	if rp := vReplayLines(); rp != nil {
 		for _, f := range rp {
 			switch {
-			case f[0] == "blrp" && len(f) == 11:
+			case f[0] == "blrp" && len(f) == 12:
 				c20Blrp(out, f[1], f[2:])
 			case f[0] == "llim" && len(f) == 6:
 				c20Llim(out, f[1], f[2:])
@@ -162,20 +180,21 @@ func TestVerifC20Sdklog(t *testing.T) {
 		for _, ob := range optSz {
 			for _, eq := range envSz {
 				for _, eb := range envSz {
-					c20Blrp(out, "exh-size", []string{oq, "-", "-", ob, "-", c20EnvTok(eq), "-", "-", c20EnvTok(eb)})
+					c20Blrp(out, "exh-size", []string{oq, "-", "-", ob, "-", c20EnvTok(eq), "-", "-", c20EnvTok(eb), "L"})
 				}
 			}
 		}
 	}
 	optNs := []string{"-", "0", "1", "7000000", "60000000000", "-2"}
 	for _, od := range optNs {
-		for _, ed := range c20IntEnv {
-			c20Blrp(out, "exh-interval", []string{"-", od, "-", "-", "-", "-", c20EnvTok(ed), "-", "-"})
-			c20Blrp(out, "exh-timeout", []string{"-", "-", od, "-", "-", "-", "-", c20EnvTok(ed), "-"})
+		for _, ed := range c20DurEnv {
+			c20Blrp(out, "exh-interval", []string{"-", od, "-", "-", "-", "-", c20EnvTok(ed), "-", "-", "L"})
+			c20Blrp(out, "exh-timeout", []string{"-", "-", od, "-", "-", "-", "-", c20EnvTok(ed), "-", "L"})
+			c20Blrp(out, "exh-both", []string{"-", od, od, "-", "-", "-", c20EnvTok(ed), c20EnvTok(ed), "-", "L"})
 		}
 	}
 	for _, ob := range []string{"-", "0", "1", "3", "-5"} {
-		c20Blrp(out, "exh-buf", []string{"-", "-", "-", "-", ob, "-", "-", "-", "-"})
+		c20Blrp(out, "exh-buf", []string{"-", "-", "-", "-", ob, "-", "-", "-", "-", "L"})
 	}
 	optLim := []string{"-", "0", "5", "200", "-1", "-7"}
 	for _, oc := range optLim {
@@ -201,16 +220,22 @@ func TestVerifC20Sdklog(t *testing.T) {
 	optAny := []string{"-", "-", "0", "1", "5", "511", "512", "513", "600", "2047", "2048", "2049", "4096", "-1", "-7", "1000000"}
 	for i := 0; i < n; i++ {
 		if r.Intn(4) > 0 {
-			a := make([]string, 9)
+			a := make([]string, 10)
 			for j := 0; j < 5; j++ {
 				a[j] = vPick(r, optAny)
 			}
 			for j := 5; j < 9; j++ {
 				if r.Intn(3) == 0 {
 					a[j] = "-"
+				} else if j == 6 || j == 7 { // OTEL_BLRP_SCHEDULE_DELAY, OTEL_BLRP_EXPORT_TIMEOUT
+					a[j] = c20EnvTok(vPick(r, c20DurEnv))
 				} else {
 					a[j] = c20EnvTok(vPick(r, c20IntEnv))
 				}
+			}
+			a[9] = "-"
+			if r.Intn(4) == 0 {
+				a[9] = "L"
 			}
 			c20Blrp(out, "rnd", a)
 		} else {
